@@ -219,3 +219,64 @@ fn nf_pk_total() {
     pk_total_for!(ml_dsa_65, "ml_dsa_65");
     pk_total_for!(ml_dsa_87, "ml_dsa_87");
 }
+
+// C06 / C05 / C03 / C07: the public signing and verification entry points format M' exactly as FIPS 204 Algorithms 2-5 say. Differential
+// oracle: the `nist = true` path (mu = H(tr || M') for an M' supplied as-is) is fed the oracle's own M' and must give the same signature
+// bytes as the public entry point given (M, ctx[, PH]) and the same rnd; and each side's signature must verify on the other side.
+macro_rules! mprime_for {
+    ($m:ident, $t:expr) => {{
+        #[allow(deprecated)]
+        {
+            use crate::$m as M;
+            use crate::traits::{KeyGen, Signer, Verifier};
+            use crate::types::Ph;
+            use rand_core::{CryptoRng, RngCore};
+            use sha2::{Digest, Sha256, Sha512};
+            use sha3::digest::{ExtendableOutput, Update, XofReader};
+            struct Fixed(u8);
+            impl RngCore for Fixed {
+                fn next_u32(&mut self) -> u32 { unimplemented!() }
+                fn next_u64(&mut self) -> u64 { unimplemented!() }
+                fn fill_bytes(&mut self, _d: &mut [u8]) { unimplemented!() }
+                fn try_fill_bytes(&mut self, d: &mut [u8]) -> Result<(), rand_core::Error> { for b in d.iter_mut() { *b = self.0; } Ok(()) }
+            }
+            impl CryptoRng for Fixed {}
+            let (pk, sk) = M::KG::keygen_from_seed(&[9u8; 32]);
+            let msg: Vec<u8> = (0..77u8).collect();
+            for clen in [0usize, 1, 2, 17, 254, 255] {
+                let ctx: Vec<u8> = (0..clen).map(|i| (i as u8) ^ 0x5A).collect();
+                let rnd = [0x33u8; 32];
+                // pure mode
+                let mut mp = vec![0u8, clen as u8];
+                mp.extend_from_slice(&ctx); mp.extend_from_slice(&msg);
+                let api = sk.try_sign_with_rng(&mut Fixed(0x33), &msg, &ctx).unwrap();
+                let refsig = M::_internal_sign(&sk, &mp, &[], rnd).unwrap();
+                assert!(api == refsig, "pure-mode signature differs from Sign_internal on M' = 0 || |ctx| || ctx || M  (|ctx| = {}, {})", clen, $t);
+                assert!(M::_internal_verify(&pk, &mp, &api, &[]), "Verify_internal on the oracle's M' rejects the public signature (|ctx| = {}, {})", clen, $t);
+                assert!(pk.verify(&msg, &refsig, &ctx), "verify rejects Sign_internal's signature on the oracle's M' (|ctx| = {}, {})", clen, $t);
+                // pre-hash modes
+                for (ph, oid_last) in [(Ph::SHA256, 0x01u8), (Ph::SHA512, 0x03u8), (Ph::SHAKE128, 0x0Bu8)] {
+                    let oid = [0x06u8, 0x09, 0x60, 0x86, 0x48, 0x01, 0x65, 0x03, 0x04, 0x02, oid_last];
+                    let digest: Vec<u8> = match ph {
+                        Ph::SHA256 => Sha256::digest(&msg).to_vec(),
+                        Ph::SHA512 => Sha512::digest(&msg).to_vec(),
+                        Ph::SHAKE128 => { let mut h = sha3::Shake128::default(); h.update(&msg); let mut r = h.finalize_xof(); let mut o = [0u8; 32]; r.read(&mut o); o.to_vec() }
+                    };
+                    let mut mp = vec![1u8, clen as u8];
+                    mp.extend_from_slice(&ctx); mp.extend_from_slice(&oid); mp.extend_from_slice(&digest);
+                    let api = sk.try_hash_sign_with_rng(&mut Fixed(0x33), &msg, &ctx, &ph).unwrap();
+                    let refsig = M::_internal_sign(&sk, &mp, &[], rnd).unwrap();
+                    assert!(api == refsig, "pre-hash signature differs from Sign_internal on M' = 1 || |ctx| || ctx || OID || PH(M)  (OID ..{:02x}, |ctx| = {}, {})", oid_last, clen, $t);
+                    assert!(M::_internal_verify(&pk, &mp, &api, &[]), "Verify_internal on the oracle's M' rejects the public pre-hash signature (OID ..{:02x}, |ctx| = {}, {})", oid_last, clen, $t);
+                    assert!(pk.hash_verify(&msg, &refsig, &ctx, &ph), "hash_verify rejects Sign_internal's signature on the oracle's M' (OID ..{:02x}, |ctx| = {}, {})", oid_last, clen, $t);
+                }
+            }
+        }
+    }};
+}
+#[test]
+fn nf_mprime_format() {
+    mprime_for!(ml_dsa_44, "ml_dsa_44");
+    mprime_for!(ml_dsa_65, "ml_dsa_65");
+    mprime_for!(ml_dsa_87, "ml_dsa_87");
+}
